@@ -253,6 +253,9 @@ def gen_cases(rec, rng, tier):
         nn = n if len(RG[1]) <= 2 else 4
         yield {'cls': 'random_grammar', 'ref': RG, 'n': nn}
         yield {'cls': 'random_grammar_renamed', 'ref': cfgg.random_var_renaming(rng, RG), 'n': nn, 'hint': rng.choice('SAXQ'), 'start_variable': rng.choice('TSAZ')}
+        yield {'cls': 'multichar_variable_names', 'ref': cfgg.multichar_renaming(rng, RG), 'n': min(nn, 4), 'hint': rng.choice(['S', 'AB', 'X']), 'start_variable': rng.choice(['T', 'AB'])}
+        for tw in cfgg.start_twins(RG)[:1]:
+            yield {'cls': 'same_rules_other_start_variable', 'ref': tw, 'n': min(nn, 4)}
 
 
 def run(rec, rng, tier):
